@@ -505,7 +505,7 @@ def root_namespace(data: bytes) -> Optional[str]:
 def report(ctx: Ctx, what: str, case: dict, detail: Any) -> None:
     fid = known_match(case, detail)
     if fid and any(e['id'] == fid and e.get('status') == 'known' for e in ctx.known):
-        ctx.known_hit(fid)
+        ctx.known_hit(fid, case, detail)
     else:
         ctx.failure(what, case, detail)
 
@@ -1231,6 +1231,86 @@ def fuzz_part(ctx: Ctx, drv: Optional[Driver]) -> None:
 
 # ------------------------------------------------------------------------------------------------
 
+# ------------------------------------------------------------------------------------------------
+# typed values in element AND attribute position: the conversion / facet / identity sites see lists with bad
+# items, huge numbers and years, NaN/INF, blank and padded values ... and must end in a verdict or library error
+TV_XSD = '''<xs:schema xmlns:xs="http://www.w3.org/2001/XMLSchema">
+ <xs:simpleType name="ints"><xs:list itemType="xs:int"/></xs:simpleType>
+ <xs:simpleType name="ints3"><xs:restriction base="ints"><xs:maxLength value="3"/></xs:restriction></xs:simpleType>
+ <xs:simpleType name="intsE"><xs:restriction base="ints"><xs:enumeration value="1 2"/><xs:enumeration value="3"/></xs:restriction></xs:simpleType>
+ <xs:simpleType name="dates"><xs:list itemType="xs:date"/></xs:simpleType>
+ <xs:simpleType name="dates2"><xs:restriction base="dates"><xs:minLength value="2"/></xs:restriction></xs:simpleType>
+ <xs:simpleType name="uni"><xs:union memberTypes="xs:int xs:date xs:boolean"/></xs:simpleType>
+ <xs:simpleType name="uniE"><xs:restriction base="uni"><xs:enumeration value="1"/><xs:enumeration value="true"/></xs:restriction></xs:simpleType>
+ <xs:simpleType name="bigE"><xs:restriction base="xs:integer"><xs:enumeration value="7"/><xs:enumeration value="8"/></xs:restriction></xs:simpleType>
+ <xs:simpleType name="dec2"><xs:restriction base="xs:decimal"><xs:totalDigits value="5"/><xs:fractionDigits value="2"/><xs:maxInclusive value="99.5"/></xs:restriction></xs:simpleType>
+ <xs:simpleType name="dbl"><xs:restriction base="xs:double"><xs:minInclusive value="0"/></xs:restriction></xs:simpleType>
+ <xs:simpleType name="yr"><xs:restriction base="xs:gYear"><xs:minInclusive value="1900"/></xs:restriction></xs:simpleType>
+ <xs:simpleType name="dur"><xs:restriction base="xs:duration"><xs:maxInclusive value="P1Y"/></xs:restriction></xs:simpleType>
+ <xs:simpleType name="hexL"><xs:restriction base="xs:hexBinary"><xs:length value="2"/></xs:restriction></xs:simpleType>
+ <xs:element name="doc"><xs:complexType><xs:sequence>
+   <xs:element name="row" maxOccurs="unbounded"><xs:complexType><xs:sequence>
+     <xs:element name="v" minOccurs="0" maxOccurs="unbounded" type="xs:anySimpleType"/>
+   </xs:sequence>
+   <xs:attribute name="ints3" type="ints3"/><xs:attribute name="intsE" type="intsE"/><xs:attribute name="dates2" type="dates2"/>
+   <xs:attribute name="uniE" type="uniE"/><xs:attribute name="bigE" type="bigE"/><xs:attribute name="dec2" type="dec2"/>
+   <xs:attribute name="dbl" type="dbl"/><xs:attribute name="yr" type="yr"/><xs:attribute name="dur" type="dur"/>
+   <xs:attribute name="hexL" type="hexL"/><xs:attribute name="kd" type="xs:date"/><xs:attribute name="ki" type="xs:integer"/>
+   </xs:complexType></xs:element>
+ </xs:sequence></xs:complexType>
+   <xs:unique name="ud"><xs:selector xpath="row"/><xs:field xpath="@kd"/></xs:unique>
+   <xs:unique name="ui"><xs:selector xpath="row"/><xs:field xpath="@ki"/></xs:unique>
+ </xs:element>
+ <xs:element name="e_ints3" type="ints3"/><xs:element name="e_intsE" type="intsE"/><xs:element name="e_dates2" type="dates2"/>
+ <xs:element name="e_uniE" type="uniE"/><xs:element name="e_bigE" type="bigE"/><xs:element name="e_dec2" type="dec2"/>
+ <xs:element name="e_dbl" type="dbl"/><xs:element name="e_yr" type="yr"/><xs:element name="e_dur" type="dur"/><xs:element name="e_hexL" type="hexL"/>
+</xs:schema>'''
+
+TV_VALUES = {
+    'ints3': ['1 2 3', '1 x 3 4', '1 2 3 4', 'x', '', ' 1  2 ', '1 99999999999 3 4', '1.5 2'],
+    'intsE': ['1 2', '3', '1 x', 'x y z', '1  2', ''],
+    'dates2': ['2020-01-01 2020-02-30', '2020-01-01', 'x 2020-01-01 y', '99999999999-01-01 2020-01-01', ''],
+    'uniE': ['1', 'true', 'x', '2020-01-01', '99999999999999999999', ''],
+    'bigE': ['7', '9', '1' + '0' * 500, '-' + '9' * 400, 'x', ' 7 '],
+    'dec2': ['1.25', '1.255', '100000', 'NaN', 'INF', '1E3', '9' * 400 + '.5', '.', '-0.00', '99.50'],
+    'dbl': ['1', '-1', 'NaN', 'INF', '-INF', '1e999', '1e-999', 'nan', '0x1p3', ''],
+    'yr': ['2000', '1899', '99999999999999999999', '-0001', '0000', '20000Z', 'x'],
+    'dur': ['P1Y', 'P13M', 'P400D', 'P99999999999999999999Y', 'PT1S', '-P1Y', 'P', 'x'],
+    'hexL': ['0a0b', '0a', '0A0B0C', 'zz', '0a 0b', ''],
+    'kd': ['2020-01-01', '2020-01-01Z', '4294967296-01-01', '99999999999999999999-12-31', 'x'],
+    'ki': ['1', '01', '1' + '0' * 400, 'x'],
+}
+
+
+def typed_values_part(ctx: Ctx) -> None:
+    import xmlschema
+    seen: dict = {}
+    for cls in (xmlschema.XMLSchema10, xmlschema.XMLSchema11):
+        schema = cls(TV_XSD)
+        sname = 'typed-values/' + cls.XSD_VERSION
+        docs = []
+        for name, vals in TV_VALUES.items():
+            for v in vals:
+                a = esc_attr(v)
+                docs.append(f'<doc><row {name}="{a}"/></doc>')
+                if name not in ('kd', 'ki'):
+                    docs.append(f'<e_{name}>{esc_attr(v)}</e_{name}>')
+            # two rows: identity comparison of the (possibly undecodable / huge) values
+            if name in ('kd', 'ki'):
+                for v in vals:
+                    docs.append(f'<doc><row {name}="{esc_attr(v)}"/><row {name}="{esc_attr(vals[0])}"/></doc>')
+        for _ in range(ctx.pick(80, 800)):
+            names = ctx.rng.sample(list(TV_VALUES), ctx.rng.randint(2, 4))
+            attrs = ' '.join(f'{n}="{esc_attr(ctx.rng.choice(TV_VALUES[n]))}"' for n in names)
+            docs.append(f'<doc><row {attrs}/><row {attrs}/></doc>')
+        for d in docs:
+            fuzz_case(ctx, schema, sname, d.encode('utf-8'), 'typed-value', seen)
+
+
+def esc_attr(v: str) -> str:
+    return v.replace('&', '&amp;').replace('<', '&lt;').replace('"', '&quot;')
+
+
 def run(ctx: Ctx, driver_ok: bool) -> None:
     ctx.known.extend(e for e in local_findings() if e.get('property') == 'C11'
                      and not any(k['id'] == e['id'] for k in ctx.known))
@@ -1238,6 +1318,7 @@ def run(ctx: Ctx, driver_ok: bool) -> None:
     limits_part(ctx, drv)
     setters_part(ctx, drv)
     handlers_part(ctx, drv)
+    typed_values_part(ctx)
     fuzz_part(ctx, drv)
 
 
